@@ -375,3 +375,147 @@ package control
 //@   ensures networkType.L4Proto == "udp" && networkType.IpVersion != "6" ==> result == outbound * 6 + 2 || result == outbound * 6 + 4
 //@   ensures networkType.L4Proto == "udp" && networkType.IpVersion == "6" ==> result == outbound * 6 + 3 || result == outbound * 6 + 5
 //@   ensures result < 1536
+
+// ---------------------------------------------------------------------------------------------
+// C02 / C01: the kernel record and the userspace compiled record of one rule describe the same match.
+// agree(s, c) is exactly what compileRoutingMatch(s) would decode, field by field, plus the 0/1
+// encoding of the boolean bytes the kernel tests with `if (match_set->not)` / `->must`.
+//@ macro le16(a0 int, a1 int) = a0 + 256*a1
+//@ macro le32(a0 int, a1 int, a2 int, a3 int) = a0 + 256*a1 + 65536*a2 + 16777216*a3
+//@ macro decodes(s bpfMatchSet, c compiledRoutingMatch) = s.Type == c.matchType && s.Outbound == c.outbound && s.Mark == c.mark && (s.Not != 0) == c.not && (s.Must != 0) == c.must && ((s.Type == consts.MatchType_IpSet || s.Type == consts.MatchType_SourceIpSet || s.Type == consts.MatchType_Mac) ==> le32(s.Value[0], s.Value[1], s.Value[2], s.Value[3]) == c.lpmIndex) && ((s.Type == consts.MatchType_Port || s.Type == consts.MatchType_SourcePort) ==> le16(s.Value[0], s.Value[1]) == c.portStart && le16(s.Value[2], s.Value[3]) == c.portEnd) && ((s.Type == consts.MatchType_L4Proto || s.Type == consts.MatchType_IpVersion) ==> s.Value[0] == c.mask) && (s.Type == consts.MatchType_ProcessName ==> (forall i int :: 0 <= i && i < 16 ==> s.Value[i] == c.pname[i])) && (s.Type == consts.MatchType_Dscp ==> s.Value[0] == c.dscp)
+//@ macro agree(s bpfMatchSet, c compiledRoutingMatch) = decodes(s, c) && s.Not <= 1 && s.Must <= 1
+
+//@ func bpfBool
+//@   vpure
+//@   ensures result == (v ? 1 : 0)
+
+//@ func newCompiledRoutingBase
+//@   vpure
+//@   ensures result.matchType == matchType && result.outbound == outboundID && result.not == not && result.mark == mark && result.must == must
+//@   ensures result.lpmIndex == 0 && result.portStart == 0 && result.portEnd == 0 && result.mask == 0 && result.dscp == 0
+//@   ensures forall i int :: 0 <= i && i < 16 ==> result.pname[i] == 0
+
+// every rule appended to the builder carries a kernel record and a compiled record that agree
+//@ func (*RoutingMatcherBuilder).appendRule
+//@   requires b != nil
+//@   requires agree(set, compiled)
+//@   modifies *
+//@   ensures len(b.rules) == old(len(b.rules)) + 1 && len(b.compiledRules) == old(len(b.compiledRules)) + 1
+
+// the ten lowerings: each must establish agree(...) at its appendRule call (precondition of appendRule)
+//@ func (*RoutingMatcherBuilder).addDomain
+//@   requires b != nil && f != nil && outbound != nil
+//@   dyncalls noeffect
+//@   modifies *
+//@ func (*RoutingMatcherBuilder).addSourceMac
+//@   requires b != nil && f != nil && outbound != nil
+//@   dyncalls noeffect
+//@   modifies *
+//@ func (*RoutingMatcherBuilder).addIp
+//@   requires b != nil && f != nil && outbound != nil && b.lpmDedup != nil
+//@   dyncalls noeffect
+//@   modifies *
+//@ func (*RoutingMatcherBuilder).addSourceIp
+//@   requires b != nil && f != nil && outbound != nil && b.lpmDedup != nil
+//@   dyncalls noeffect
+//@   modifies *
+//@ func (*RoutingMatcherBuilder).addPort
+//@   requires b != nil && f != nil && outbound != nil
+//@   dyncalls noeffect
+//@   modifies *
+//@ func (*RoutingMatcherBuilder).addSourcePort
+//@   requires b != nil && f != nil && outbound != nil
+//@   dyncalls noeffect
+//@   modifies *
+//@ func (*RoutingMatcherBuilder).addL4Proto
+//@   requires b != nil && f != nil && outbound != nil
+//@   dyncalls noeffect
+//@   modifies *
+//@ func (*RoutingMatcherBuilder).addIpVersion
+//@   requires b != nil && f != nil && outbound != nil
+//@   dyncalls noeffect
+//@   modifies *
+//@ func (*RoutingMatcherBuilder).addProcessName
+//@   requires b != nil && f != nil && outbound != nil
+//@   dyncalls noeffect
+//@   modifies *
+//@ func (*RoutingMatcherBuilder).addDscp
+//@   requires b != nil && f != nil && outbound != nil
+//@   dyncalls noeffect
+//@   modifies *
+// (the configuration decoder never stores a nil *Function: assumed)
+//@ func (*RoutingMatcherBuilder).addFallback
+//@   requires b != nil
+//@   at call ParseFunctionOrString#1 assume-after nth(result, 1) == nil ==> nth(result, 0) != nil
+//@   dyncalls noeffect
+//@   modifies *
+
+// port range as the kernel reads it: struct port_range { __u16 port_start; __u16 port_end; } at the
+// start of the 16-byte value, little-endian host order, rest zero
+//@ func (bpfPortRange).Encode
+//@   ensures le16(b[0], b[1]) == r.PortStart && le16(b[2], b[3]) == r.PortEnd
+//@   ensures forall i int :: 4 <= i && i < 16 ==> b[i] == 0
+//@ func ParsePortRange
+//@   requires len(b) >= 4
+//@   ensures portStart == le16(b[0], b[1]) && portEnd == le16(b[2], b[3])
+
+// LPM key as the kernel reads it: struct lpm_key { __u32 prefixlen; __be32 data[4]; } with IPv4 prefixes
+// stored IPv4-mapped (length + 96) and data = the 16 address bytes unchanged.
+//@ func cidrToBpfLpmKey
+//@   ensures prefix.Addr().Is4() ==> result.PrefixLen == wrap32(prefix.Bits() + 96)
+//@   ensures !prefix.Addr().Is4() ==> result.PrefixLen == wrap32(prefix.Bits())
+//@   ensures forall w int :: 0 <= w && w < 4 ==> result.Data[w] == common.ne32(prefix.Addr().As16()[4*w], prefix.Addr().As16()[4*w+1], prefix.Addr().As16()[4*w+2], prefix.Addr().As16()[4*w+3])
+
+// canonicalizePrefixes works on a private copy (append to a nil slice, sort, dedup in place): the frame
+// "changes nothing the caller can see" is trusted, not checked (sort.Slice is unmodelled)
+//@ func canonicalizePrefixes
+//@   trusted
+//@ func hashLpmSet
+//@   dyncalls noeffect
+
+// Ring rewrite of LPM set indices: every lpm-typed rule's index i becomes (allocStartIdx + i) mod
+// MaxMatchSetLen -- the slot buildRoutingKernspace fills for trie i -- and nothing else changes.
+//@ macro isLpm(t int) = t == consts.MatchType_IpSet || t == consts.MatchType_SourceIpSet || t == consts.MatchType_Mac
+//@ macro idx32(r *bpfMatchSet) = le32(r.Value[0], r.Value[1], r.Value[2], r.Value[3])
+//@ func rewriteKernRulesWithRingLpmIndex
+//@   requires consts.MaxMatchSetLen >= 32 && consts.MaxMatchSetLen <= 1048576
+//@   ensures err == nil ==> len(result0) == len(rules)
+//@   ensures err == nil ==> (forall k int {result0[k]} :: 0 <= k && k < len(rules) ==> result0[k].Type == rules[k].Type && result0[k].Not == rules[k].Not && result0[k].Outbound == rules[k].Outbound && result0[k].Must == rules[k].Must && result0[k].Mark == rules[k].Mark)
+//@   ensures err == nil ==> (forall k int {result0[k]} :: 0 <= k && k < len(rules) && isLpm(rules[k].Type) ==> idx32(rules[k]) < lpmCount && idx32(result0[k]) == wrap32(allocStartIdx + idx32(rules[k])) % consts.MaxMatchSetLen)
+//@   ensures err == nil ==> (forall k int {result0[k]} :: 0 <= k && k < len(rules) && !isLpm(rules[k].Type) ==> (forall j int :: 0 <= j && j < 16 ==> result0[k].Value[j] == rules[k].Value[j]))
+//@   loop 1
+//@     invariant len(kernRules) == len(rules) && fresh(kernRules)
+//@     invariant forall k int {kernRules[k]} :: 0 <= k && k < len(rules) ==> kernRules[k].Type == rules[k].Type && kernRules[k].Not == rules[k].Not && kernRules[k].Outbound == rules[k].Outbound && kernRules[k].Must == rules[k].Must && kernRules[k].Mark == rules[k].Mark
+//@     invariant forall k int {kernRules[k]} :: 0 <= k && k < $idx && isLpm(rules[k].Type) ==> idx32(rules[k]) < lpmCount && idx32(kernRules[k]) == wrap32(allocStartIdx + idx32(rules[k])) % consts.MaxMatchSetLen
+//@     invariant forall k int {kernRules[k]} :: 0 <= k && k < len(rules) && (k >= $idx || !isLpm(rules[k].Type)) ==> (forall j int :: 0 <= j && j < 16 ==> kernRules[k].Value[j] == rules[k].Value[j])
+
+// buildRoutingKernspace: the ring slots are reserved for exactly the tries of this program, and the rule
+// array is rewritten with that start index and count (goroutine bodies are outside the modelled subset)
+//@ func buildRoutingKernspace
+//@   anchorsonly
+//@   dyncalls noeffect
+//@   modifies *
+//@   at call reserveLpmRingSlots#1 assert a0 == wrap32(len(old(simulatedLpmTries)))
+//@   at call rewriteKernRulesWithRingLpmIndex#1 assert a0 == rules
+//@   at call rewriteKernRulesWithRingLpmIndex#1 assert a1 == allocStartIdx
+//@   at call rewriteKernRulesWithRingLpmIndex#1 assert a2 == wrap32(len(old(simulatedLpmTries)))
+
+//@ func getNextRingLpmIndex
+//@   requires consts.MaxMatchSetLen >= 32 && consts.MaxMatchSetLen <= 1048576
+//@   modifies globalNextLpmIndex
+//@   ensures result == old(globalNextLpmIndex.Load())
+//@   ensures globalNextLpmIndex.Load() == wrap32(result + count) % consts.MaxMatchSetLen
+//@   loop 1
+//@     invariant globalNextLpmIndex.Load() == old(globalNextLpmIndex.Load())
+//@ func reserveLpmRingSlots
+//@   requires consts.MaxMatchSetLen >= 32 && consts.MaxMatchSetLen <= 1048576
+//@   modifies globalNextLpmIndex
+//@   ensures count > consts.MaxMatchSetLen ==> err != nil
+//@   ensures err == nil ==> result0 == old(globalNextLpmIndex.Load())
+//@   ensures err == nil && count > 0 ==> globalNextLpmIndex.Load() == wrap32(result0 + count) % consts.MaxMatchSetLen
+//@   ensures err != nil || count == 0 ==> globalNextLpmIndex.Load() == old(globalNextLpmIndex.Load())
+
+// the userspace matcher's compiled rule is exactly the decoding of the kernel record
+//@ func compileRoutingMatch
+//@   ensures err == nil ==> decodes(match, result0)
+//@   ensures err != nil <==> !(match.Type <= consts.MatchType_Fallback)
